@@ -108,9 +108,16 @@ def run(ctx, drv):
     import signal
     import plat
     from platypus import Problem, Real, algorithms as A
+    from platypus import operators as O_
     for name, mk, budget in (("CMAES", lambda p: A.CMAES(p, offspring_size=10), 4000), ("CMAES", lambda p: A.CMAES(p, offspring_size=6), 3000),
                              ("GeneticAlgorithm", lambda p: A.GeneticAlgorithm(p, population_size=10, offspring_size=10), 3000),
-                             ("EvolutionaryStrategy", lambda p: A.EvolutionaryStrategy(p, population_size=6, offspring_size=6), 3000)):
+                             ("EvolutionaryStrategy", lambda p: A.EvolutionaryStrategy(p, population_size=6, offspring_size=6), 3000),
+                             # the smallest sizes: a steady-state GA (one offspring per step), populations of one and two, a variator
+                             # whose arity exceeds the number of offspring wanted
+                             ("GeneticAlgorithm(offspring_size=1)", lambda p: A.GeneticAlgorithm(p, population_size=6, offspring_size=1), 40),
+                             ("GeneticAlgorithm(population_size=1)", lambda p: A.GeneticAlgorithm(p, population_size=1, offspring_size=1), 12),
+                             ("EvolutionaryStrategy(1+1)", lambda p: A.EvolutionaryStrategy(p, population_size=1, offspring_size=1), 25),
+                             ("GeneticAlgorithm(PCX 10 parents, 4 offspring wanted)", lambda p: A.GeneticAlgorithm(p, population_size=8, offspring_size=4, variator=O_.PCX(nparents=10, noffspring=2)), 60)):
         p = Problem(2, 1, function=lambda x: [sum((v - 0.25) ** 2 for v in x)])
         p.types[:] = Real(-1, 1)
         _random.seed(rng.randrange(2 ** 31))
@@ -141,7 +148,7 @@ def run(ctx, drv):
         elif alg.nfe < budget or (len(nfes) >= 2 and nfes[-2] >= budget):
             ctx.fail("stops-before-budget" if alg.nfe < budget else "steps-after-budget-reached", inp, alg.nfe, f">= {budget}, first step reaching it is the last", f"core.Algorithm.run ({name})")
         ctx.case(("long-converging", name, budget), True)
-    ctx.count("long_converging_runs", 4)
+    ctx.count("long_converging_and_tiny_runs", 8)
     if drv.ok:
         out = drv.batch(reqs)
         for g, fn in zip(out, post):
